@@ -18,6 +18,8 @@ import traceback
 
 ROOT = os.path.dirname(os.path.dirname(os.path.abspath(__file__)))
 KNOWN = os.path.join(ROOT, "known_findings.json")
+# where evidence/ and replay/ are written: /verif itself, unless a regression harness redirects a scratch run elsewhere
+OUT = os.environ.get("VERIF_OUT") or ROOT
 
 
 def _jsonable(x):
@@ -151,15 +153,15 @@ class Report:
         return True
 
     def _write_replay(self, what, signature, payload, obligation, found):
-        os.makedirs(os.path.join(ROOT, "replay"), exist_ok=True)
+        os.makedirs(os.path.join(OUT, "replay"), exist_ok=True)
         h = hashlib.sha1((self.pid + signature).encode()).hexdigest()[:10]
-        path = os.path.join(ROOT, "replay", "%s_%s.json" % (self.pid, h))
+        path = os.path.join(OUT, "replay", "%s_%s.json" % (self.pid, h))
         doc = {"property": self.pid, "what": what, "signature": signature, "obligation": obligation,
                "failing_input_found": found, "payload": _jsonable(payload),
-               "replay_cmd": "./check %s --replay %s" % (self.pid, os.path.relpath(path, ROOT))}
+               "replay_cmd": "./check %s --replay %s" % (self.pid, os.path.relpath(path, OUT))}
         with open(path, "w") as f:
             json.dump(doc, f, indent=1)
-        return os.path.relpath(path, ROOT)
+        return os.path.relpath(path, OUT)
 
     # ------------------------------------------------------------------ finish
     def finish(self, crash=None):
@@ -213,8 +215,8 @@ class Report:
             "coverage": coverage, "assumptions": self.assumptions,
             "wall_s": round(time.time() - self.t0, 2), "violations": len(self.violations),
         }
-        os.makedirs(os.path.join(ROOT, "evidence"), exist_ok=True)
-        with open(os.path.join(ROOT, "evidence", "%s.json" % self.pid), "w") as f:
+        os.makedirs(os.path.join(OUT, "evidence"), exist_ok=True)
+        with open(os.path.join(OUT, "evidence", "%s.json" % self.pid), "w") as f:
             json.dump(_jsonable(doc), f, indent=1)
         if self.violations:
             return 1          # violation lines already printed are valid even if a later stage of the check crashed
